@@ -46,6 +46,12 @@ T9 = {
     "fileio/read_ti_txt.h": ["read_ti_txt"],
     "fileio/read_uf2.cpp": ["read_uf2", "read_block"],
     "fileio/read_uf2.h": ["read_uf2"],
+    "fileio/read_elf.cpp": ["read_elf"],
+    "fileio/read_amiga.cpp": ["read_amiga", "read_hunk_header", "read_code", "read_int32"],
+    "fileio/read_amiga.h": ["read_amiga"],
+    "fileio/read_macho.cpp": ["read_macho"],
+    "fileio/read_macho.h": ["read_macho"],
+    "fileio/read_elf.h": ["read_elf"],
     "core/Macros.h": ["macros_expand_params"],
 }
 
